@@ -4,3 +4,4 @@ CONSTANTS ArmMin = 3
           Thorough = FALSE
           Emit = TRUE
 INVARIANT Lemmas
+INVARIANT KneedleLemma
